@@ -4,4 +4,5 @@ package all
 import (
 	_ "verif/checks/c16"
 	_ "verif/checks/c17"
+	_ "verif/checks/c03"
 )
